@@ -119,6 +119,22 @@ class FortranExpressionMapper(StringifyMapper):
                 enclosing_prec, PREC_PRODUCT)
 
     def map_power(self, expr, enclosing_prec, *args, **kwargs):
+        exponent = expr.exponent
+        if isinstance(exponent, (int, np.integer)) and not isinstance(
+                exponent, (bool, np.bool_)):
+            # Keep an integer exponent an integer (map_constant would make it
+            # a double precision literal): a negative base may only be
+            # raised to an integer power.
+            from pymbolic.mapper.stringifier import PREC_POWER
+            exponent_str = str(int(exponent))
+            if exponent < 0:
+                exponent_str = "(%s)" % exponent_str
+            return self.parenthesize_if_needed(
+                    self.format("%s**%s",
+                        self.rec(expr.base, PREC_CALL, *args, **kwargs),
+                        exponent_str),
+                    enclosing_prec, PREC_POWER)
+
         return _map_power_right_assoc(self, expr, enclosing_prec, *args, **kwargs)
 
     def map_comparison(self, expr, enclosing_prec, *args, **kwargs):
